@@ -129,6 +129,22 @@ impl Run {
         }
         let replay_dir = format!("{}/evidence/replays", VERIF_DIR);
         let _ = std::fs::create_dir_all(&replay_dir);
+        // replay files name the violations of *this* run: drop those of earlier runs of the same
+        // property, tier and arithmetic profile
+        let stem = match &self.evidence_name {
+            Some(n) => format!("{}-{}", n.trim_end_matches(".json"), self.tier.name()),
+            None => format!("{}-{}", self.prop, self.tier.name()),
+        };
+        if let Ok(rd) = std::fs::read_dir(&replay_dir) {
+            for f in rd.flatten() {
+                let name = f.file_name().to_string_lossy().to_string();
+                if let Some(rest) = name.strip_prefix(&format!("{}-", stem)) {
+                    if rest.trim_end_matches(".json").chars().all(|c| c.is_ascii_digit()) {
+                        let _ = std::fs::remove_file(f.path());
+                    }
+                }
+            }
+        }
         let mut new_count = 0;
         let mut known_hit = vec![];
         let mut lines = vec![];
@@ -142,7 +158,7 @@ impl Run {
                 continue;
             }
             new_count += 1;
-            let path = format!("{}/{}-{}-{}.json", replay_dir, self.prop, self.tier.name(), n);
+            let path = format!("{}/{}-{}.json", replay_dir, stem, n);
             let body = json!({
                 "property": self.prop,
                 "engine": self.engine,
